@@ -333,9 +333,24 @@ class C10(PropertyCheck):
     id = "C10"
     lean_modules = ["QipVerif.Props.C10"]
     drivers = ["drv_qasm"]
-    theorems = []
-    level_text = ""
-    level_note = ""
+    theorems = [
+        "QipVerif.C10.export_valid_partial",
+        "QipVerif.C10.export_refuses",
+        "QipVerif.C10.export_refuses_classical",
+        "QipVerif.C10.export_measure_counterexample",
+        "QipVerif.C10.export_exponent_counterexample",
+    ]
+    level_text = ("Lean 4 theorems about a character-level model of the exporter, for every circuit (any size, any length) of "
+                  "exportable gates with well-formed controls/targets/parameters: the emitted text is accepted line by line "
+                  "by a strict OpenQASM 2.0 recogniser written from the language paper, passes the standard's static "
+                  "semantics, and denotes exactly the circuit's sequence of gate calls; every auxiliary gate definition the "
+                  "exporter emits denotes the documented matrix up to one global phase (matrix identities over C); circuits "
+                  "with a non-exportable gate are refused. Partial: measurements (exported without ';') and parameters "
+                  "printed without a decimal point (1e-20) are excluded and proved to be counter-examples. The model is tied "
+                  "to the code by regenerated tables and a character-exact correspondence.")
+    level_note = ("Trusted: Lean kernel; the OpenQASM 2.0 grammar/semantics and qelib1.inc as transcribed in "
+                  "Model/QasmSpec.lean (cross-checked against an independent Python front end); Python's str() of numbers; "
+                  "the documented gate matrices restated in Lemmas/QasmDen.lean; the harness.")
     technique = ("Lean 4 proof (string-level model of the exporter, strict recogniser and expansion semantics of "
                  "OpenQASM 2.0 in Lean, matrix identities over C for the emitted gate definitions) + regenerated "
                  "tables + character-exact model/implementation correspondence")
